@@ -435,6 +435,11 @@ class RetryExecutor(CanCustomizeBind, Executor):
         if delegate_future.cancelled():
             # nothing to do, retrying on cancel is not allowed
             self._log.debug("Delegate was cancelled: %s", delegate_future)
+            # No-op if this is due to our own cancel(); otherwise the delegate
+            # was cancelled behind our back and our future is cancelled too.
+            found_job.future._me_delegate_cancelled()
+            if found_job.future.cancelled():
+                self._pop_job(found_job)
             return
 
         (should_retry, sleep_time) = eval_policy(found_job, self._log)
